@@ -162,6 +162,8 @@ M('c19_equal_parts_not_trimmed', 'C19', (TR, "            subtrajectories = [tra
 M('c19_jumps_split_residence_lost', 'C19', (J, "                minimal_residence=self.minimal_residence,\n            )\n            for part in parts\n", "                minimal_residence=0,\n            )\n            for part in parts[::-1]\n"))
 # ---- C11 -------------------------------------------------------------------------------------
 R = 'rdf.py'
+M('c07_revert_F13', 'C07', (R, "def _uniqify_labels(arr, labels: list[str]) -> np.ndarray:\n    \"\"\"Helper function to uniqify labels.\"\"\"\n    unique_labels = sorted(set(labels))", "def _uniqify_labels(arr, labels: list[str]) -> np.ndarray:\n    \"\"\"Helper function to uniqify labels.\"\"\"\n    unique_labels = list(set(labels))"),
+  (R, "    \"\"\"Helper function to generate a list of states from the labels.\"\"\"\n    unique_labels = sorted(set(labels))", "    \"\"\"Helper function to generate a list of states from the labels.\"\"\"\n    unique_labels = list(set(labels))"))
 M('c11_revert_F7', 'C11,C07', (R, "    palette = np.arange(-1, len(labels), dtype=int)\n", "    palette = np.arange(len(labels), dtype=int)\n"))
 M('c11_digitize_left', 'C11', (R, "        rdf = np.digitize(dists, bins, right=True)\n", "        rdf = np.digitize(dists, bins, right=False)\n"))
 M('c11_prev_next_swapped', 'C11', (R, "    states_prev = _uniqify_labels(transitions.states_prev(), labels)\n    states_next = _uniqify_labels(transitions.states_next(), labels)\n", "    states_prev = _uniqify_labels(transitions.states_next(), labels)\n    states_next = _uniqify_labels(transitions.states_prev(), labels)\n"))
